@@ -1369,6 +1369,44 @@ def check(ck):
         ck.ob(R1, ed.key(r, "datetime-as-is"), ok, "the datetime is written as obj.isoformat() (zone and precision untouched)" if ok else
               "encode_datetime converts the value before writing it (%s): the decoded datetime has another offset, so the argument hash "
               "recomputed from the decoded arguments differs from the stored one" % (conv or "obj is reassigned"), ed.where(r))
+    # ... and read back without leaving the zone *name* to the parser: dateutil.parser.parse attaches the LOCAL zone to a
+    # zone name the local zone also goes by ("Z" is reported as "UTC"; TZ=UTC+3 is called UTC and is three hours off), so
+    # the 'Z' suffix isoformat() writes for UTC must be read as UTC explicitly (or by isoparse / an explicit tzinfos table) -- D54
+    dd_ = FA(ck, MC + ".decode_datetime")
+    ddp = _first_param(dd_, "state")
+    n_parse = 0
+    for c in dd_.calls():
+        if A.call_attr(c) != "parse" and not (isinstance(c.func, ast.Name) and c.func.id == "parse"):
+            continue
+        if not c.args or not dd_.nodes(c):
+            continue
+        n_parse += 1
+        if any(k.arg == "tzinfos" for k in c.keywords):
+            continue
+        at = dd_.nodes(c)[0]
+        arg = dd_.xnorm(c.args[0], at)
+        zlit = "%s.endswith('Z')" % ddp
+        conds = dd_.conditions(c)
+        stripped = arg in ("%s[:-1]" % ddp, "%s[0:-1]" % ddp, "%s.removesuffix('Z')" % ddp, "%s.rstrip('Z')" % ddp)
+        if stripped:
+            # the suffix is cut off: the parsed (naive) value has to be given UTC explicitly wherever it flows to a return
+            utc = False
+            for r in dd_.returns():
+                t = dd_.xnorm(r.value, dd_.nodes(r)[0]) if r.value is not None and dd_.nodes(r) else ""
+                if A.norm(c.args[0]) in t or arg in t:
+                    utc = "replace(tzinfo=" in t and any(w in t for w in ("UTC", "utc", "tzutc"))
+                    if not utc:
+                        break
+            ok = utc
+            why = "the 'Z' suffix is cut off but the parsed value is not given UTC: a UTC datetime comes back naive"
+        else:
+            ok = conds is not None and bool(conds) and all((zlit, False) in cj for cj in conds) and arg == ddp
+            why = ("dateutil.parser.parse is handed the text with its 'Z' suffix: it reports the zone name 'UTC' and attaches the LOCAL zone "
+                   "when that is also called UTC (TZ=UTC+3): Memento.time and every UTC datetime argument shift by the local offset "
+                   "in the round trip, and the argument hash recomputed from the file differs from the stored one")
+        ck.ob(R1, dd_.key(c, "zone-name-not-left-to-the-parser"), ok,
+              "a 'Z' suffix never reaches the zone-name lookup of the parser" if ok else why, dd_.where(c))
+    ck.need(n_parse >= 1 or bool(dd_.calls("isoparse")) or bool(dd_.calls("fromisoformat")), "decode_datetime: no parser call found")
     # ---- R3
     ea = FA(ck, MC + ".encode_arg")
     da = FA(ck, MC + ".decode_arg")
